@@ -81,5 +81,5 @@ def run(ctx):
             gen2.rule_G2(ctx), gen.rule_G4(ctx), C09.rule_leading_zero(ctx), scopeapi.rule_L8(ctx), crash2.rule_L9(ctx), crash2.rule_L10(ctx),
             sC43.rule_COUPLE(ctx), sC43.rule_EXCSHAPE(ctx), sC43.rule_LEXCASE(ctx), sC43.rule_CPREFIX(ctx),
             sC43.rule_LEXSUFFIX(ctx), sC43.rule_OCTDIGIT(ctx), sC43.rule_PAIR(ctx), sC43.rule_HOLD(ctx),
-            # sC43.rule_NONEORD(ctx),   # pending finding (/tmp/strengthen4/G9/FINDING_1.md): reports PyrexScanner.close_bracket_action on the unmodified tree
+            sC43.rule_NONEORD(ctx),     # found PyrexScanner.close_bracket_action comparing a None nesting level (repaired: 921d6e3cf)
             ]
